@@ -342,7 +342,7 @@ func checkC14(c *lib.Ctx) {
 			// every (h, d)
 			reps := 2
 			if thorough {
-				reps = 12
+				reps = 20
 			}
 			for h := 1; h <= 4; h++ {
 				for d := 1; d <= 24; d++ {
@@ -378,7 +378,7 @@ func checkC14(c *lib.Ctx) {
 			// relative speeds left to the scheduler, with random handler durations
 			nSleep := 600
 			if thorough {
-				nSleep = 12000
+				nSleep = 30000
 			}
 			for k := 0; k < nSleep; k++ {
 				p := c14Program(c.Rand, server, 1+c.Rand.Intn(4), 1+c.Rand.Intn(24), layouts[c.Rand.Intn(3)])
